@@ -61,16 +61,21 @@ pub fn fuzz_entry(target: &str, data: &[u8]) {
         "c02" => t!("C02", "random", c02::Scenario, c02::fuzz_sanitize, c02::run),
         "c03" => t!("C03", "random", c03::Scenario, c03::fuzz_sanitize, c03::run),
         "c04" => t!("C04", "random", c04::Scenario, c04::fuzz_sanitize, c04::run),
+        "c06" => t!("C06", "walk", c06::Scenario, c06::fuzz_sanitize, c06::run),
         "c07" => t!("C07", "prefixes", c07::Scenario, c07::fuzz_sanitize, c07::run),
         "c08" => t!("C08", "random", c08::Scenario, c08::fuzz_sanitize, c08::run),
         "c09" => t!("C09", "routing", c09::Scenario, c09::fuzz_sanitize, c09::run),
         "c10" => t!("C10", "histories", c10::Scenario, c10::fuzz_sanitize, c10::run),
         "c11" => t!("C11", "outcomes", c11::Scenario, c11::fuzz_sanitize, c11::run),
         "c12" => t!("C12", "pairing", c12::Scenario, c12::fuzz_sanitize, c12::run),
+        "c13" => t!("C13", "lifecycle", c13::Scenario, c13::fuzz_sanitize, c13::run),
         "c14" => t!("C14", "latency-window", c14::Scenario, c14::fuzz_sanitize, c14::run),
         "c15" => t!("C15", "ports", c15::PortScenario, c15::fuzz_sanitize, c15::run_ports),
+        "c16" => t!("C16", "monitors", c16::Scenario, c16::fuzz_sanitize, c16::run),
+        "c17" => t!("C17", "table", c17::Scenario, c17::fuzz_sanitize, c17::run),
+        "c19" => t!("C19", "chains", c19::Scenario, c19::fuzz_sanitize, c19::run),
         other => panic!("unknown fuzz target {other}"),
     }
 }
 
-pub const FUZZ_TARGETS: &[&str] = &["c02", "c03", "c04", "c07", "c08", "c09", "c10", "c11", "c12", "c14", "c15"];
+pub const FUZZ_TARGETS: &[&str] = &["c02", "c03", "c04", "c06", "c07", "c08", "c09", "c10", "c11", "c12", "c13", "c14", "c15", "c16", "c17", "c19"];
